@@ -144,6 +144,10 @@ def run(case, ctx):
             else:
                 ok = (R.agg_close(red, agg, tol) and R.agg_close(red, want, tol)) if isinstance(want, float) else \
                     (same(red, agg) and same(red, want))
+                if ok and f in ("sum", "mean", "min", "max") and not same(red, agg):
+                    # the two computations are the same textbook function over the same values in the same order:
+                    # "agree" is decided as equality (the tolerance above is for the reference only)
+                    return ctx.fail(f"reduction/{f}/vector-and-single-group-aggregate-differ", f"Vector({vals}).{f}() = {red!r}, single-group aggregate {agg!r}")
             if not ok:
                 return ctx.fail(f"reduction/{f}/disagrees", f"Vector({vals}).{f}() = {red!r}, single-group aggregate {agg!r}, reference {want!r}")
     if R.snapshot_table(t) != snap:
